@@ -22,6 +22,7 @@ struct Counted : L {
 using TicketM = Counted<frg::ticket_spinlock>;
 using SimpleM = Counted<frg::simple_spinlock>;
 
+#ifndef SIM_NO_PRIVATE_PEEK
 // read-only access to the private deferred flag (explicit-instantiation access, no repo change)
 template <class Tag, typename Tag::type M>
 struct Rob { friend typename Tag::type get(Tag) { return M; } };
@@ -29,6 +30,8 @@ template <class Mx> struct DefTag { using type = bool frg::qs_agent<Mx>::*; frie
 template struct Rob<DefTag<SimMutex>, &frg::qs_agent<SimMutex>::_qs_deferred>;
 template struct Rob<DefTag<TicketM>, &frg::qs_agent<TicketM>::_qs_deferred>;
 template struct Rob<DefTag<SimpleM>, &frg::qs_agent<SimpleM>::_qs_deferred>;
+
+#endif
 
 #define DISPATCH(mt, EXPR) \
 	switch (mt) { \
@@ -53,8 +56,13 @@ void sut_node_construct(void *mem, void (*cb)(void *)) {
 	n->on_grace_period = reinterpret_cast<void (*)(frg::qs_node *)>(cb);
 }
 int sut_agent_deferred(int mt, void *ag) {
+#ifndef SIM_NO_PRIVATE_PEEK
 	int r = 0;
 	DISPATCH(mt, r = static_cast<frg::qs_agent<M> *>(ag)->*get(DefTag<M>()));
 	return r;
+#else
+	(void)mt; (void)ag;
+	return -1; // unknown: the tree has no member of that name any more; the harness then treats the documented assertion as a stop
+#endif
 }
 }
